@@ -95,12 +95,18 @@ struct XSet : phosg::LRUSet<int> {
   }
 };
 
+// Values are opaque to the reference list, so they may be shifted: the containers store v - t_voff and every value read back
+// has t_voff added again.  With the shift, stored values coincide with keys, and the copying overload can be handed
+// references INTO the container (a key that is the stored value of the entry being replaced, a stored key, a stored value),
+// as an alias table / union-find root update does.
+static thread_local long t_voff = 0;
+static thread_local int t_variant = 0;
 struct XMap : phosg::LRUMap<int, int> {
   vector<Ent> fwd() {
     vector<Ent> r;
     size_t cap = this->items.size() + 2;
     for (Item* i = this->head; i; i = i->next) {
-      r.push_back({*i->key, US(i->size), i->value});
+      r.push_back({*i->key, US(i->size), i->value + t_voff});
       if (r.size() > cap) {
         r.push_back({-99, 0, 0});
         break;
@@ -112,7 +118,7 @@ struct XMap : phosg::LRUMap<int, int> {
     vector<Ent> r;
     size_t cap = this->items.size() + 2;
     for (Item* i = this->tail; i; i = i->prev) {
-      r.push_back({*i->key, US(i->size), i->value});
+      r.push_back({*i->key, US(i->size), i->value + t_voff});
       if (r.size() > cap) {
         r.push_back({-99, 0, 0});
         break;
@@ -120,18 +126,29 @@ struct XMap : phosg::LRUMap<int, int> {
     }
     return r;
   }
-  vector<long> apply(const Op& o, int variant = 0) {
+  vector<long> apply(const Op& o, int variant = -1) {
+    if (variant < 0) variant = t_variant++;
     if (o.op == "insert") {
       if (variant & 1) {  // the copying overload
         const int k = (int)o.k;
-        const int v = (int)o.v;
-        return {(long)this->insert(k, v, SZ(o.s))};
+        const int v = (int)(o.v - t_voff);
+        const int *kp = &k, *vp = &v;
+        if (variant & 2) {
+          auto it = this->items.find(k);
+          if (it != this->items.end()) kp = (it->second.value == k) ? &it->second.value : &it->first;
+          for (auto& e : this->items)
+            if (e.second.value == v && &e.second.value != kp) {
+              vp = &e.second.value;
+              break;
+            }
+        }
+        return {(long)this->insert(*kp, *vp, SZ(o.s))};
       }
-      int k = (int)o.k, v = (int)o.v;
+      int k = (int)o.k, v = (int)(o.v - t_voff);
       return {(long)this->insert(std::move(k), std::move(v), SZ(o.s))};
     }
     if (o.op == "emplace") {
-      int k = (int)o.k, v = (int)o.v;
+      int k = (int)o.k, v = (int)(o.v - t_voff);
       return {(long)this->emplace(std::move(k), std::move(v), SZ(o.s))};
     }
     if (o.op == "erase") return {(long)this->erase((int)o.k)};
@@ -139,9 +156,9 @@ struct XMap : phosg::LRUMap<int, int> {
       try {
         if (variant & 1) {
           const XMap* c = this;
-          return {(long)c->at((int)o.k)};
+          return {(long)c->at((int)o.k) + t_voff};
         }
-        return {(long)this->at((int)o.k)};
+        return {(long)this->at((int)o.k) + t_voff};
       } catch (const out_of_range&) {
         return {-1};
       }
@@ -158,7 +175,7 @@ struct XMap : phosg::LRUMap<int, int> {
     if (o.op == "evict") {
       try {
         auto p = this->evict_object();
-        return {p.key, p.value, US(p.size)};
+        return {p.key, p.value + t_voff, US(p.size)};
       } catch (const out_of_range&) {
         return {-1};
       }
@@ -222,7 +239,7 @@ static Op random_op(vt::Rng& r, bool is_map, int nkeys, int maxsize) {
   if (keyed) o.k = 1 + r.below(nkeys);
   if (o.op == "insert" || o.op == "emplace" || o.op == "change_size") o.s = r.below(maxsize + 1);
   if (o.op == "touch") o.s = r.chance(50) ? -1 : (long)r.below(maxsize + 1);
-  if (is_map && (o.op == "insert" || o.op == "emplace")) o.v = r.below(100);
+  if (is_map && (o.op == "insert" || o.op == "emplace")) o.v = r.chance(50) ? r.below(100) : 1 + r.below(nkeys + 1);
   if (is_map && o.op == "change_size") o.t = r.below(2);
   return o;
 }
@@ -234,6 +251,7 @@ static void random_history(vt::Trace& tr, vt::Rng& r, bool is_map, int len) {
   // a third of the histories runs with sizes scaled far beyond 32 bits (size differences of 2^31, 2^33, 2^40 ...)
   static const long SCALES[] = {1, 1, 1, 1L << 20, 1L << 31, 1L << 33, (1L << 40) + 1};
   g_scale = SCALES[r.below(7)];
+  t_voff = r.chance(30) ? (long)r.below(4) : 0;
   C* a = new C();
   C* b = new C();
   tr.emit(string("{\"e\":\"Reset\",\"fl\":\"") + (is_map ? "map" : "set") + "\"}");
@@ -251,7 +269,7 @@ static void random_history(vt::Trace& tr, vt::Rng& r, bool is_map, int len) {
     size_t before = c.count();
     vector<long> ret;
     if constexpr (std::is_same_v<C, XMap>)
-      ret = c.apply(o, (int)r.below(2));
+      ret = c.apply(o, (int)r.below(4));
     else
       ret = c.apply(o);
     tr.emit(op_event(c, inst, o, ret));
@@ -271,6 +289,7 @@ static void random_history(vt::Trace& tr, vt::Rng& r, bool is_map, int len) {
   delete a;
   delete b;
   g_scale = 1;
+  t_voff = 0;
 }
 
 // ---------------------------------------------------------------- table walk
@@ -332,6 +351,12 @@ static bool run_path(const Table& t, const vector<int>& path, bool two, string* 
   int nops = (int)t.ops.size();
   bool ok = true;
   if (dump) *dump += string("{\"e\":\"Reset\",\"fl\":\"") + (is_map ? "map" : "set") + "\"}\n";
+  {  // overload / aliasing variant and value shift: a function of the path, so that a re-run for the report repeats them
+    unsigned h = 0;
+    for (size_t i = 0; i < path.size(); i++) h = h * 31 + (unsigned)path[i] + 1;
+    t_variant = (int)(h & 3);
+    t_voff = (h & 4) ? 6 : 0;   // table values are {7, 8}: shifted onto the keys {1, 2}
+  }
   for (int code : path) {
     if (two && code == 2 * nops) {
       a->swap(*b);
@@ -375,6 +400,7 @@ static bool run_path(const Table& t, const vector<int>& path, bool two, string* 
   }
   delete a;
   delete b;
+  t_voff = 0;
   return ok;
 }
 
